@@ -207,7 +207,7 @@ def run(ctx: core.Ctx):
     n = 1500 if ctx.quick else 15000
     for i in range(n):
         fam = rng.choice([["c1", "c2"], ["up", "dn"], ["tri"], ["c1", "c2", "c1"]])
-        m = rng.randint(1, 5)
+        m = rng.randint(1, 5) if i % 10 else rng.choice([17, 40, 70, 130])      # every tenth list is long: a term activated dozens of times
         tiny = i % 3 == 0
         ds = [(rng.choice([1e-9, 2e-9, 1e-12, 3e-7, 0.0, 1e-17, 3e-17, 1e-100, 1e-300]) if tiny else rng.choice([rng.random(), rng.random(), 0.0, 1.0])) for _ in range(m)]
         c = {"acts": [{"t": rng.choice(fam), "d": from_number(d)} for d in ds], "aggr": rng.choice(["none", "Maximum", "AlgebraicSum", "BoundedSum"]),
